@@ -220,7 +220,7 @@ fn future_dated_source_section(shard: Shard, rep: &mut Report, no: &mut u64) {
         if !matches!(scn.op.as_str(), "set" | "put" | "set_temp_file" | "put_temp_file") || scn.debris() || !matches!(scn.front.as_str(), "plain" | "stack") {
             continue;
         }
-        ops::STAGED_SOURCE.with(|s| s.set(Some(DAY)));
+        ops::set_staged_source(Some(DAY));
         let (n, trace, res) = fault_free(&scn);
         if res.is_err() || res.is_panic() {
             rep.violation("crash:staged-source-failed", format!("{} with a staged, future-dated source: {}", scn.to_json(), res.label()), json!({"future_dated_source": true}));
@@ -250,9 +250,9 @@ fn future_dated_source_section(shard: Shard, rep: &mut Report, no: &mut u64) {
                 );
             }
         }
-        ops::STAGED_SOURCE.with(|s| s.set(None));
+        ops::set_staged_source(None);
     }
-    ops::STAGED_SOURCE.with(|s| s.set(None));
+    ops::set_staged_source(None);
 }
 
 fn case_json(scn: &Scn, k: u64, second: Option<u64>) -> Value {
@@ -294,7 +294,7 @@ pub fn run(tier: Tier, shard: Shard, rep: &mut Report) {
         debris in .kismet_temp, combinations} x front-end {plain, sharded, stacked}; for EVERY call index k of the fault-free trace a \
         forked child runs the operation and _exits instead of executing call k. Oracle on the surviving tree: every key-named file is \
         a complete read-only value for that key; everything else new is under .kismet_temp or is a kismet directory; a fresh handle's \
-        maintenance keeps young temp files and removes stale ones, and 2 h later reclaims all debris of the maintained directory; \
+        maintenance brings an over-full directory down to its capacity, keeps young temp files and removes stale ones, and 2 h later reclaims all debris of the maintained directory; \
         get/touch/put/set/ensure through a fresh handle obey register semantics. Thorough adds a second crash at every call of the \
         recovering process's set+maintenance. Error paths too: each publication step (rename/link) of each write scenario is \
         refused with EXDEV (thorough: every plausible errno) and the process dies at each later call; same oracle. And set/put by path and by temp-file object (plain and stacked) with the value staged in the cache's own .kismet_temp and dated one day ahead of the local clock, dying at every call: same oracle, the two-hour reclaim clause applying from the library's own stamp of the file onwards. Non-trivial = death after the first mutating call and before the last call."
